@@ -20,15 +20,58 @@ def _has_rule(tr):
     return lambda call: any(py2lean.match(r[0], call, {}) for r in tr.r.expr)
 
 
+def _inline_procedures_pure_args(stmts, globals_, has_rule, depth=0):
+    """(own post-pass on top of harness/py2lean_norm.py) a bare call statement `h(e1, e2)` of a module-level helper of the
+    package that returns nothing (it raises, or works in place), whose arguments are CALL-FREE expressions (names,
+    attribute chains, constants, comparisons of those: pure, so they may be duplicated) and that binds no local of its
+    own, is its body with the parameters replaced - e.g. `_raise_not_vectorizable(n == 7)` is
+    `if n == 7: raise NotImplementedError(..)` / `raise ValueError(..)`."""
+    import copy
+    from . import py2lean_norm as N
+    out = []
+    for st in stmts:
+        if isinstance(st, ast.If):
+            st = ast.If(test=st.test, body=_inline_procedures_pure_args(st.body, globals_, has_rule, depth),
+                        orelse=_inline_procedures_pure_args(st.orelse, globals_, has_rule, depth))
+        elif isinstance(st, ast.For):
+            st = ast.For(target=st.target, iter=st.iter,
+                         body=_inline_procedures_pure_args(st.body, globals_, has_rule, depth), orelse=st.orelse)
+        elif (isinstance(st, ast.Expr) and isinstance(st.value, ast.Call) and isinstance(st.value.func, ast.Name)
+              and not st.value.keywords and not has_rule(st.value) and depth < 3):
+            h = N._helper(st.value.func.id, globals_)
+            if h is not None:
+                fnode, hglobals = h
+                params = [x.arg for x in fnode.args.args]
+                body = N._strip_doc(fnode.body)
+                stores = any(isinstance(n, ast.Name) and isinstance(n.ctx, (ast.Store, ast.Del))
+                             for b in body for n in ast.walk(b))
+                returns = any(isinstance(n, (ast.Return, ast.Yield, ast.YieldFrom)) for b in body for n in ast.walk(b))
+                if (len(params) == len(st.value.args) and all(N._no_calls(a) for a in st.value.args)
+                        and not stores and not returns):
+                    env = dict(zip(params, st.value.args))
+                    new = [N._Subst(env).visit(copy.deepcopy(b)) for b in body]
+                    out.extend(_inline_procedures_pure_args(new, hglobals, has_rule, depth + 1))
+                    continue
+        out.append(st)
+    return out
+
+
+def _post_normalise(fn, tr, node):
+    f = getattr(fn, "__func__", fn)
+    node.body = _inline_procedures_pure_args(list(node.body), getattr(f, "__globals__", {}), _has_rule(tr)) or [ast.Pass()]
+    ast.fix_missing_locations(node)
+    return node
+
+
 def _with_temps_fallback(fn, tr, run, node):
     """translate the normalised source; if the vocabulary has no word for it, once more with single-use local
     temporaries replaced by their definitions (`first = xs[0]; np.allclose(xs, first)` is `np.allclose(xs, xs[0])`)"""
     from . import py2lean_norm
     try:
-        return run(node)
+        return run(_post_normalise(fn, tr, node))
     except py2lean.Untranslatable as first:
         try:
-            return run(py2lean_norm.normalised(fn, _has_rule(tr), inline_temps=True))
+            return run(_post_normalise(fn, tr, py2lean_norm.normalised(fn, _has_rule(tr), inline_temps=True)))
         except py2lean.Untranslatable:
             raise first
 
